@@ -173,7 +173,7 @@ def native_model_function(name, params, ret="float", n_labels=None):
         extra = f" + 0.125 * {params[0]} * {params[-1]}" if len(params) >= 2 else ""
         body = f"({lin}){extra} + 0.0 * jnp.zeros(())"
     elif ret == "bool":
-        body = f"(jnp.floor(jnp.abs({lin}) * 3.0) % 3) != 0"
+        body = f"(jnp.floor(jnp.abs({lin}) * 4.0) % 6) != 0"
     else:
         body = f"(jnp.floor(jnp.abs({lin}) * 2.0).astype(int)) % {int(n_labels)}"
     src = f"import jax.numpy as jnp\ndef {name}({', '.join(params)}):\n    return {body}\n"
